@@ -129,6 +129,13 @@ def wid_rows(rows):
     return out
 
 
+def common_wide(ch):
+    c = ord(ch)
+    return (4352 <= c <= 4447 or 11904 <= c <= 12350 or 12353 <= c <= 13311 or 13312 <= c <= 19903 or 19968 <= c <= 42191
+            or 44032 <= c <= 55203 or 63744 <= c <= 64255 or 65072 <= c <= 65135 or 65281 <= c <= 65376 or 65504 <= c <= 65510
+            or 131072 <= c <= 262141)          # the same blocks as Chars!WideCp
+
+
 def narrow(text):
     return all(w == 1 for r in wid_rows(gen.rows_of(text)) for w in r)
 
@@ -160,7 +167,7 @@ def rel_events(run, groups, prop):
 
 def c06(tier):
     run = Run("C06", tier)
-    n = 700 if tier == "quick" else 40000
+    n = 1000 if tier == "quick" else 40000
     run.rule = ("pairs (base, shifted) of legend-free inputs: random grids over the full drawing vocabulary incl. "
                 "Unicode glyphs, parametric shapes, paragraphs of the bundled examples; offsets: one small "
                 "(k,n<=8), one medium, one up to 400x200 per base; TLC checks the input relation and the document "
@@ -176,8 +183,9 @@ def c06(tier):
     for t in corpus:
         g = [({"input": t}, None)]
         offs = [(r.randint(0, 8), r.randint(0, 8)), (r.randint(0, 60), r.randint(0, 30))]
-        if r.random() < 0.3:
-            offs.append((r.randint(0, 400), r.randint(0, 200)))
+        # one far offset per base: f32 geometry at large magnitudes
+        offs.append(r.choice([(r.randint(250, 400), r.randint(0, 20)), (r.randint(0, 20), r.randint(126, 200)),
+                              (r.randint(200, 400), r.randint(100, 200))]))
         for j, (k, nn) in enumerate(offs):
             g.append(({"input": gen.shift_text(t, k, nn)}, {"kind": "shift", "of": j + 1, "k": k, "n": nn}))
         groups.append(g)
@@ -203,15 +211,37 @@ def c10(tier):
                         ["JuxtaCommutes"], init="MCInitPair", next_="MCNext")
     run.model("MC_Rel", cfg, timeout=3000)
     corpus = [t for t in gen.mixed_corpus(r, n) if t.strip() and '"' not in t and "{" not in t and "# Legend:" not in t]
+    cat = _json.load(open(os.path.join(common.ROOT, "verifpy", "catalogue.json"), encoding="utf-8"))
+    special = []
+    for i in range(max(40, n // 8)):
+        kind = i % 4
+        if kind == 0:        # a catalogue circle, with a label (also wide) right or left of it
+            special.append("\n".join(cat[r.choice([0, 1, 0, 1] + list(range(2, 22)))]))
+        elif kind == 1:      # rows ending in double-width characters
+            special.append("\n".join(gen.random_grid(r, r.randint(1, 5), 1, "ab-|+ ", 0.7) + r.choice(gen.WIDE) for _ in range(r.randint(1, 4))))
+        elif kind == 2:      # balanced quoted strings, also with combining / zero-width characters inside
+            special.append("\n".join(r.choice(["", "ab ", "| "]) + '"' + r.choice(["re\u0301sume\u0301", "a\u200db", "x\u0308y", "plain", "一二"]) + '"'
+                                     + r.choice([" |", " -+", " a"]) for _ in range(r.randint(1, 3))))   # (a quoted string is never the right-most thing: F-C12-quoted-canvas)
+        else:
+            special.append(gen.box(r.randint(1, 6), r.randint(1, 3), r.choice(["sharp", "round", "uni"])))
+    r.shuffle(special)
+    # shapes whose first row starts at their left edge, next to rows ending in a wide character
+    for i in range(12):
+        corpus += [gen.random_grid(r, r.randint(1, 4), 1, "ab", 1.0) + r.choice(gen.WIDE), r.choice(["()", "(_)", "(_)--", "()-"])]
+    corpus = corpus + special + [x for pair in zip(special, reversed(special)) for x in pair]
     groups = []
+
+    def dcols(s_):
+        return sum(2 if common_wide(c) else 1 for c in s_)
     for i in range(0, len(corpus) - 1, 2):
         a, b = corpus[i], corpus[i + 1]
         ra, rb = a.split("\n"), b.split("\n")
-        gap = r.randint(1, 3)
-        if r.random() < 0.5 and narrow(a):
-            at = max(len(x.rstrip(" \t")) for x in ra) + gap
+        gap = r.choice([1, 1, 2, 3])
+        if r.random() < 0.6:
+            ra_s = [x.rstrip(" \t") for x in ra]
+            at = max(dcols(x) for x in ra_s) + gap
             h = max(len(ra), len(rb))
-            j = "\n".join(((ra[k] if k < len(ra) else "").rstrip(" \t").ljust(at) + (rb[k] if k < len(rb) else "")).rstrip(" \t")
+            j = "\n".join((((ra_s[k] if k < len(ra) else "") + " " * (at - dcols(ra_s[k] if k < len(ra) else ""))) + (rb[k] if k < len(rb) else "")).rstrip(" \t")
                           for k in range(h))
             rel = {"kind": "juxta", "of": 2, "of2": 1, "mode": "side", "at": at, "gap": gap}
         else:
@@ -456,6 +486,19 @@ def c04(tier):
         dens = r.choice([0.3, 0.6, 0.9])
         texts.append(gen.random_grid(r, w, h, alpha + "-|+.'/\\*_<>", dens))
     observe_events(run, gen.dedup(texts), ["C04"], "random-labels")
+    # rows that also contain quoted strings (content without quote, backslash, braces)
+    qtexts = []
+    qalpha = gen.LABELS[:8] + gen.WIDE + gen.LATIN + gen.CYRIL + " -|+"
+    for i in range(n // 3):
+        rows = []
+        for _ in range(r.randint(1, 3)):
+            parts = []
+            for _k in range(r.randint(1, 3)):
+                w = "".join(r.choice(qalpha) for _ in range(r.randint(0, 5)))
+                parts.append(w if r.random() < 0.5 else '"' + w + '"')
+            rows.append(" ".join(parts))
+        qtexts.append("\n".join(rows))
+    observe_events(run, gen.dedup(qtexts), ["C04q"], "labels-with-quoted")
     run.samples.append({"input": texts[0]})
     run.validate()
     run.assumptions = std_assumptions() + ["display width from Chars!WideCp; the drivers draw wide characters only from blocks on which all Unicode versions agree"]
